@@ -141,6 +141,129 @@ def slp_p_vc(eos_set):
                            "tensor input with the sequence dimension first and one batch dimension; other layouts and packed input: bounded driver; float arithmetic treated as real arithmetic"])
 
 
+def greedy_p_vc(batch_first):
+    """P rung: ctc_greedy_search (log-domain, lengths given) for SYMBOLIC batch size N, frames T >= 1, vocabulary V and blank index.
+    log_softmax is an uninterpreted element function (the specification is over the normalised scores themselves); max along the class
+    dimension has the assumed contract `upper bound, attained at the reported label` (no tie rule); masked_select / masked_scatter_ the
+    row-major compaction contract; sums the partial-sum contract. With best(n, t) the label max reports for frame t and
+        keep(n, t) = t < in_len[n] and best(n, t) != blank and (t = 0 or best(n, t) != best(n, t - 1)),
+        cnt(n, t) = number of kept frames of sequence n before t (partial sums of the code's own count):
+      - best(n, t) is a label of maximal normalised score in its frame;
+      - out_lens[n] = cnt(n, T);  a kept frame t puts best(n, t) at position cnt(n, t) of the path (blanks and repeats removed, order kept);
+      - the reported score is the sum over t < in_len[n] of the frame maxima (summand checked element-wise).
+    Compaction reasoning as in C09 for rank-2 tensors: the source counter equals cnt by induction over t, the destination is the
+    prefix window [0, out_lens[n]), equal totals per sequence by induction over n."""
+    import pydrobert.torch._decoding as D
+    from vf.pyvc import symtensor as stn
+
+    z = ip.to_z3
+    N, T, V, BLANK, N0, T0, N1, T1, Q0, V0 = z3.Ints("N T V blank_idx n0 t0 n1 t1 q0 v0")
+    Iz, Rz = z3.IntSort(), z3.RealSort()
+    LOGIT, LENS = z3.Function("logit", Iz, Iz, Iz, Rz), z3.Function("in_lens", Iz, Iz)
+    blank = z3.If(BLANK < 0, BLANK + V, BLANK)
+    a_, b_ = z3.Ints("a_q b_q")
+    clamp = lambda v, lo, hi: z3.If(v < lo, lo, z3.If(v > hi, hi, v))
+
+    def thunk(I):
+        I.stubs.update(stn.stubs())
+        le = (lambda n, t, v: LOGIT(z(n), z(t), z(v))) if batch_first else (lambda t, n, v: LOGIT(z(n), z(t), z(v)))
+        logits = stn.ST((N, T, V) if batch_first else (T, N, V), le, "float")
+        lens = stn.ST((N,), lambda n: LENS(z(n)), "long")
+        # (b + V) mod V for -V <= b < V: proved as the raw lemma `blank_index_normalised`, stated here as a fact
+        I.ex.assume((BLANK + V) % V == blank)
+
+        def hook(rec2, src):
+            rec1 = getattr(src, "compaction", None)
+            sums = [s_ for s_ in I.ex.ghost.get("sums", []) if s_.get("kind") == "sum"]
+            dm, ls = I.ex.ghost.get("dim_maxes", []), I.ex.ghost.get("log_softmaxes", [])
+            if rec1 is None or rec1["rank_"] != 2 or rec2["rank_"] != 2 or len(sums) != 2 or len(dm) != 1 or len(ls) != 1 or "cnt" in I.ex.ghost:
+                raise ip.Unsupported("ctc_greedy_search: one log_softmax, one max over the classes, the count of the kept frames, the score sum and then one scatter of the selected labels expected")
+            sm, mx = sums[0], dm[0]
+            PS, AR = sm["S"], mx["AR"]
+            KEEP = lambda n, t: z3.And(t < LENS(n), AR(n, t) != blank, z3.Or(t == 0, AR(n, t) != AR(n, t - 1)))
+            I.ex.ghost.update(cnt=PS, best=AR, frame_max=mx["MX"], LS=ls[0]["LS"], ls_dim=ls[0]["dim"], mx=mx)
+            for y in (mx["att"]([N1, T1]), mx["att"]([N1, T1 - 1]), mx["att"]([N0, T0]), mx["att"]([N0, T0 - 1]), mx["ub"]([N0, T0], V0)):
+                I.ex.instance(y)
+            I.ex.oblige("structure.compaction.extents", z3.And(sm["T"] == T, rec1["dims"][0] == N, rec1["dims"][1] == T, rec2["dims"][0] == N, rec2["dims"][1] == T, mx["n"] == V))
+            cv = lambda n, t: z3.Implies(z3.And(0 <= n, n < N, 0 <= t, t < T), sm["val"]([n], t) == z3.If(KEEP(n, t), 1, 0))
+            I.ex.oblige("compaction.counted_value_is_the_keep_rule", cv(N1, T1))
+            I.ex.assume(z3.ForAll([a_, b_], cv(a_, b_)))
+            for y in (sm["base"](N1), sm["step"](N1, T1), cv(N1, T1), sm["base"](N0), cv(N0, T0), sm["step"](N0, T0), sm["step"](N0, T1), cv(N0, T1)):
+                I.ex.instance(y)
+            rng = lambda n, t: z3.Implies(z3.And(0 <= n, n < N, 0 <= t, t <= T), z3.And(0 <= PS(n, t), PS(n, t) <= t))
+            I.ex.oblige("count.range.base", rng(N1, z3.IntVal(0)))
+            I.ex.oblige("count.range.step", z3.Implies(z3.And(0 <= T1, T1 < T, rng(N1, T1)), rng(N1, T1 + 1)))
+            I.ex.assume(z3.ForAll([a_, b_], rng(a_, b_)))
+            later = lambda t: z3.Implies(z3.And(0 <= N0, N0 < N, 0 <= T0, T0 < t, t <= T, KEEP(N0, T0)), PS(N0, t) >= PS(N0, T0) + 1)
+            I.ex.oblige("count.grows_after_a_kept_frame.base", later(T0 + 1))
+            I.ex.oblige("count.grows_after_a_kept_frame.step", z3.Implies(z3.And(T0 < T1, T1 < T, later(T1)), later(T1 + 1)))
+            I.ex.assume(z3.ForAll([b_], later(b_)))
+            for y in (later(T), rng(N0, T0), rng(N0, T), rng(N1, T), rng(N1, T1)):
+                I.ex.instance(y)
+            m1 = lambda n, t: z3.Implies(z3.And(0 <= n, n < N, 0 <= t, t < T), rec1["mask"]([n, t]) == KEEP(n, t))
+            m2 = lambda n, t: z3.Implies(z3.And(0 <= n, n < N, 0 <= t, t < T), rec2["mask"]([n, t]) == (t < PS(n, T)))
+            I.ex.oblige("compaction.source.mask_is_the_keep_rule", m1(N1, T1))
+            I.ex.oblige("compaction.destination.mask_is_the_prefix_window", m2(N1, T1))
+            I.ex.assume(z3.ForAll([a_, b_], m1(a_, b_)))
+            I.ex.assume(z3.ForAll([a_, b_], m2(a_, b_)))
+            c1, c2 = rec1["CNT"], rec2["CNT"]
+            cl1 = lambda n, t: z3.Implies(z3.And(0 <= n, n < N, 0 <= t, t <= T), c1[1](n, t) == PS(n, t))
+            cl2 = lambda n, t: z3.Implies(z3.And(0 <= n, n < N, 0 <= t, t <= T), c2[1](n, t) == clamp(t, 0, PS(n, T)))
+            for tag, rec, cl, mm in (("source", rec1, cl1, m1), ("destination", rec2, cl2, m2)):
+                for y in (rec["base"](1, [N1]), rec["step"](1, [N1], T1), mm(N1, T1)):
+                    I.ex.instance(y)
+                I.ex.oblige("compaction.%s.frames.base" % tag, cl(N1, z3.IntVal(0)))
+                I.ex.oblige("compaction.%s.frames.step" % tag, z3.Implies(z3.And(0 <= T1, T1 < T, cl(N1, T1)), cl(N1, T1 + 1)))
+                I.ex.assume(z3.ForAll([a_, b_], cl(a_, b_)))
+            same = lambda n: z3.Implies(z3.And(0 <= n, n <= N), c1[0](n) == c2[0](n))
+            for y in (rec1["base"](0, []), rec2["base"](0, []), rec1["step"](0, [], N1), rec2["step"](0, [], N1), cl1(N1, T), cl2(N1, T)):
+                I.ex.instance(y)
+            I.ex.oblige("compaction.sequences.base", same(z3.IntVal(0)))
+            I.ex.oblige("compaction.sequences.step", z3.Implies(z3.And(0 <= N1, N1 < N, same(N1)), same(N1 + 1)))
+            I.ex.assume(z3.ForAll([a_], same(a_)))
+            q = PS(N0, T0)
+            for y in (same(N), same(N0), cl1(N0, T0), cl2(N0, q), rec1["inj"]([N0, T0]), m1(N0, T0), m2(N0, q)):
+                I.ex.instance(y)
+            I.ex.ghost["KEEP"] = KEEP
+
+        I.ex.ghost["scatter_hooks"] = [hook]
+        return I.call(D.ctc_greedy_search, [logits, lens, BLANK, batch_first, False], {})
+
+    def post(p):
+        if not api.returns(p) or not isinstance(p.value, tuple) or len(p.value) != 3 or "cnt" not in p.ghost:
+            return False
+        score, paths, out_lens = p.value
+        g = p.ghost
+        PS, AR, MX, LS, KEEP = g["cnt"], g["best"], g["frame_max"], g["LS"], g["KEEP"]
+        sums = [s_ for s_ in g.get("sums", []) if s_.get("kind") == "sum"]
+        if len(sums) != 2:
+            return [("one_count_and_one_score_sum", z3.BoolVal(False))]
+        ssum = sums[1]
+        pe = (lambda n, q: z(paths.elem(n, q))) if batch_first else (lambda n, q: z(paths.elem(q, n)))
+        ls = (lambda n, t, v: LS(n, t, v)) if batch_first else (lambda n, t, v: LS(t, n, v))
+        at = z3.And(0 <= N0, N0 < N, 0 <= T0, T0 < T)
+        return [("result_shapes", z3.And(z3.BoolVal(len(score.shape) == 1 and len(paths.shape) == 2 and len(out_lens.shape) == 1), z(score.shape[0]) == N, z(out_lens.shape[0]) == N,
+                                         z(paths.shape[0 if batch_first else 1]) == N, z(paths.shape[1 if batch_first else 0]) == T, z3.BoolVal(g["ls_dim"] == 2))),
+                ("frame_label_has_the_maximal_normalised_score", z3.Implies(z3.And(at, 0 <= V0, V0 < V), z3.And(0 <= AR(N0, T0), AR(N0, T0) < V, ls(N0, T0, AR(N0, T0)) == MX(N0, T0), ls(N0, T0, V0) <= MX(N0, T0)))),
+                ("reported_length_is_the_number_of_kept_frames", z3.Implies(z3.And(0 <= N0, N0 < N), z(out_lens.elem(N0)) == PS(N0, T))),
+                ("kept_frame_puts_its_label_at_its_count", z3.Implies(z3.And(at, KEEP(N0, T0)), z3.And(PS(N0, T0) < PS(N0, T), pe(N0, PS(N0, T0)) == AR(N0, T0)))),
+                ("score_is_the_sum_of_the_frame_maxima_within_the_length", z3.And(ssum["T"] == T, z3.Implies(z3.And(0 <= N0, N0 < N), z(score.elem(N0)) == ssum["S"](N0, T)),
+                                                                                  z3.Implies(at, ssum["val"]([N0], T0) == z3.If(T0 < LENS(N0), MX(N0, T0), z3.RealVal(0)))))]
+
+    bb, vv = z3.Ints("b_l v_l")
+    lemmas = [("blank_index_normalised", [vv >= 1, -vv <= bb, bb < vv], (bb + vv) % vv == z3.If(bb < 0, bb + vv, bb), "raw")]
+    pre = [N >= 1, T >= 1, V >= 1, -V <= BLANK, BLANK < V]
+    return VC("C07.P.greedy", "ctc_greedy_search[log domain, batch_first=%s; symbolic N, T, V, blank, lengths]" % batch_first, M, "ctc_greedy_search", thunk, pre=pre, posts=[("greedy_path_and_score", post)], lemmas=lemmas,
+              inputs={"N": N, "T": T, "V": V, "blank_idx": BLANK}, timeout_ms=40000, max_paths=64, witness_hints=[N == 1, T == 2, V == 2, BLANK == 0],
+              assumptions=["log_softmax: uninterpreted element function; max over the classes: upper bound attained at the reported label (no tie rule); masked_select / masked_scatter_: row-major compaction through counters; sum: partial sums (assumed contracts of vf/pyvc/symtensor.py, differentially tested against torch)",
+                           "the inductions (count range, count growth, frames, sequences) are applied outside the solver: base and step are obligations; (b + V) mod V by the raw lemma blank_index_normalised",
+                           "log domain with lengths given, T >= 1 (probability domain uses prod, omitted lengths and T = 0: S rung and bounded driver); float arithmetic treated as real arithmetic"])
+
+
+def greedy_p_vcs(ctx):
+    return [greedy_p_vc(True), greedy_p_vc(False)]
+
+
 def p_vcs(ctx):
     return [slp_p_vc(True), slp_p_vc(False)]
 
